@@ -86,8 +86,17 @@ f('C16', 'torsion-scalar-branch-uses-acceleration', 'Curve.torsion with scalar i
 f('C16', 'rational-curve-one-element-list-derivative-squeezed', 'rational Curve.derivative([t], d=2|3) squeezes a one-element list to shape (dim,): torsion/binormal/normal on [t] give garbage or IndexError', True, {'call': 'rational cubic .torsion([0.3])'})
 f('C16', 'integrate-periodic-collapse-single-fold', 'BSplineBasis.integrate folds periodic images only once: wrong integrals (and centre) when num_functions < periodic+1', True, {'call': 'BSplineBasis(3,[-2,-1,0,1,2,3],1).integrate(0,1)'})
 
+FIXED_COMMITS = {('C02', 'curve-evaluate-rejects-tensor-keyword'): '3ae9973', ('C03', 'rational-surface-d-not-tuple-returns-zeros'): 'cd5762c', ('C03', 'rational-derivative-order-zero-returns-zero'): '9f6e350', ('C03', 'rational-closed-form-ignores-above-list'): 'ea90458+cd5762c', ('C03', 'rational-left-limit-at-discontinuity'): '9f6e350+ea90458', ('C05', 'curve-raise-order-zero-returns-none'): '6ca09d8', ('C05', 'curve-dimension1-controlpoints-flattened'): '2d51429', ('C06', 'reverse-periodic-flip-only'): '4fe14f6', ('C06', 'swap-curve-returns-none'): '4f754a8', ('C09', 'infix-truediv-undefined'): '6773409', ('C11', 'extrude-mutates-operand'): 'c412e04', ('C11', 'section-point-view'): 'bb6c762', ('C11', 'swap-curve-returns-none'): '4f754a8', ('C11', 'curve-raise-order-0-returns-none'): '6ca09d8', ('C11', 'coons-patch-reverses-operands'): '9b346de', ('C13', 'three-point-arc-wrong-end'): 'b23deeb', ('C13', 'three-point-arc-nan-half-turn'): 'b0aae77', ('C13', 'arc-2pi-ignores-xaxis'): 'cf8223f', ('C13', 'cylinder-height-scaled-by-axis-norm'): '1445103', ('C14', 'manipulate-getargspec'): 'e2f7e0b', ('C14', 'lsq-flat-layout-reshape'): '3534aae', ('C14', 'volume-loft-two-sections'): 'f8de1df', ('C16', 'torsion-scalar-branch-uses-acceleration'): '274e74a', ('C16', 'rational-curve-one-element-list-derivative-squeezed'): 'ea90458', ('C16', 'integrate-periodic-collapse-single-fold'): 'fc5b45b', ('C17', 'nodeview-section-wrong-frame'): '8e83d07', ('C19', 'stl-2d-surface-resize'): '932700c', ('C19', 'g2-reversed-periodic-primitive'): '4fe14f6', ('C20', 'state-not-restored-on-exception'): 'cc29465', ('C20', 'g2-bounded-surface-writes-state'): '18d24da', ('C20', 'splinemodel-vertex-tolerance-not-from-state'): '580c3fa'}
 FIXED = []
 if __name__ == '__main__':
     p = os.path.join(os.path.dirname(os.path.dirname(os.path.abspath(__file__))), 'known_findings.json')
+    keep = []
+    for e in F:
+        c = FIXED_COMMITS.get((e['property'], e['class']))
+        if c:
+            FIXED.append('fixed: property=%s %s %s [%s]' % (e['property'], c, e['what'], e['class']))
+        else:
+            keep.append(e)
+    F[:] = keep
     json.dump({'findings': F, 'fixed': FIXED}, open(p, 'w'), indent=1)
     print(len(F), 'findings,', len(FIXED), 'fixed')
